@@ -139,7 +139,8 @@ def gen_call(rnd, name, opts=None):
 
 GAPS = [1, 1, 1, 2, 3, 255, 256, 257, 65535, 65536, 65537, 65538, 131073, 10 ** 6, 16777217, 2 ** 28]
 STRETCHABLE = ("alldifferent", "max_eq", "min_eq", "max_leq", "min_geq", "lexicographic_leq", "count_eq", "exactly_eq",
-               "element_iv", "element_liv", "element_lic", "relation", "affine_leq", "affine_geq", "affine_eq")
+               "element_iv", "element_liv", "element_lic", "relation", "affine_leq", "affine_geq", "affine_eq", "gcc")
+TRANSLATIONS = [127, -130, 255, 32760, -32770, 40000, 65530, -65540, 70000, 10 ** 6, -(10 ** 6), 2 ** 24, 2 ** 30, -(2 ** 30)]
 
 
 def stretch_call(rnd, name, box, params):
@@ -147,6 +148,10 @@ def stretch_call(rnd, name, box, params):
     same shapes on domains that are up to ~10^9 wide (positions, counts and coefficients are left alone; parameters that
     are values go through the same map). Values stay inside +-2^30 and linear sums inside int32."""
     n = len(box)
+    if name == "gcc":
+        # the capacities are per value of a contiguous range: translate the range instead of stretching it
+        t = rnd.choice(TRANSLATIONS)
+        return [[a + t, b + t] for a, b in box], [params[0] + t] + list(params[1:])
     if name.startswith("affine"):
         value_pos = list(range(n))
     elif name == "count_eq":
